@@ -4989,7 +4989,9 @@ func (t *Terminal) Loop() error {
 						if t.hasPreviewWindow() && t.previewer.following.Enabled() {
 							t.previewer.offset = util.Max(t.previewer.offset, len(t.previewer.lines)-(t.pwindow.Height()-t.activePreviewOpts.headerLines))
 						} else if result.offset >= 0 {
-							t.previewer.offset = util.Constrain(result.offset, t.activePreviewOpts.headerLines, len(t.previewer.lines)-1)
+							// (no line yet: not -1, the offset is not sent again with the lines)
+							headerLines := t.activePreviewOpts.headerLines
+							t.previewer.offset = util.Constrain(result.offset, headerLines, util.Max(headerLines, len(t.previewer.lines)-1))
 						}
 						t.printPreview()
 					case reqPreviewRefresh:
